@@ -367,7 +367,7 @@ func (n *Nodis) removeBlockingKeys(rc chan string, keys ...string) {
 }
 
 // blockingPop pops from the first of the keys that has an element, or waits until one of them
-// gets one (timeout 0: for ever). The waiter is registered before the keys are looked at, so a
+// gets one (timeout 0: for ever; a negative timeout: does not wait at all). The waiter is registered before the keys are looked at, so a
 // push between the look and the wait cannot be missed; a woken waiter that finds its element
 // taken by somebody else goes on waiting for the rest of its time.
 func (n *Nodis) blockingPop(timeout time.Duration, pop func(key string, count int64) [][]byte, keys ...string) (string, []byte) {
@@ -388,6 +388,9 @@ func (n *Nodis) blockingPop(timeout time.Duration, pop func(key string, count in
 			if len(results) > 0 {
 				return key, results[0]
 			}
+		}
+		if timeout < 0 {
+			return "", nil
 		}
 		verifPoint("bpop.beforeWait")
 		verifTrace("bp-block", c, "", nil, timeout > 0)
